@@ -71,7 +71,8 @@ def handle (j : Json) : Json :=
         ("exported", exportedB F e σ),
         ("states", ofNat states.length),
         ("resolves", resolvesEntry F e),
-        ("closure", ofList (fun m => Json.str (modStr m)) (importClosure F e))]
+        ("closure", ofList (fun m => Json.str (modStr m)) (setToList F (importClosure F e))),
+        ("closureClosed", closedSetB F (importClosure F e))]
   | some "call" =>
     match entryOf j, (str? (getD j "m")).bind modIdOf, str? (getD j "f"), nat? (getD j "line") with
     | some (_, .ok _, states), some m, some q, some line =>
